@@ -39,6 +39,21 @@ def import_filtered_TEs(tes_input_path, logger):
         logger.critical(msg)
         raise err
 
+    # NB a run that reuses an existing revised annotation never looks at these columns
+    # again, so a file without them has to be refused here, on every run
+    missing = [
+        column
+        for column in ("Chromosome", "Start", "Stop", "Order", "SuperFamily")
+        if column not in transposon_data.columns
+    ]
+    if missing:
+        msg = "TE annotation file '%s' lacks the required column(s): %s" % (
+            tes_input_path,
+            ", ".join(missing),
+        )
+        logger.critical(msg)
+        raise ValueError(msg)
+
     # Check for missing data issues
     check_nulls(transposon_data, logger)
 
